@@ -401,6 +401,62 @@ def exactness(rep, F):
                             "(nearly collinear / nearly parallel input flips it)" % lab, where=g.loc())
                     break
     rep.floor("R1.5", "relate functions scanned", n, 200)
+    # the arguments of an orientation test in the relate module are coordinates as stored, not rounded differences: neither a value computed by
+    # arithmetic in the calling function nor a struct field that some constructor fills from arithmetic (EdgeEndKey.delta = coord_1 - coord_0)
+    from ..facts import op_place
+    rel = [g for g in F.lib_fns(("geo",)) if g.path.startswith("geo::algorithm::relate::")]
+    computed = {}
+    for g in rel:
+        for bb in g.normal_blocks():
+            for st in g.stmts(bb):
+                if st[0] == "assign" and isinstance(st[2], list) and st[2] and st[2][0] == "agg" and isinstance(st[2][1], dict) and st[2][1].get("adt"):
+                    names = st[2][1].get("fields") or []
+                    for i_, op in enumerate(st[2][2]):
+                        pl = op_place(op)
+                        if pl is None or i_ >= len(names):
+                            continue
+                        labs = T.real(T.labels(g, pl["l"]))
+                        arith = sorted(l for l in labs if "arithmetic" in str(l))
+                        if arith:
+                            computed[(st[2][1]["adt"], names[i_])] = "%s (%s)" % (arith[0], short(g.path))
+    n_sites = 0
+    for g in rel:
+        for c in g.calls():
+            pth = (c.callee or c.path or "")
+            if not pth.endswith("::orient2d"):
+                continue
+            n_sites += 1
+            for k_, a in enumerate(c.args):
+                pl = op_place(a)
+                if pl is None:
+                    continue
+                why = None
+                labs = [l for l in T.real(T.labels(g, pl["l"])) if "arithmetic" in str(l)]
+                if labs and not pl["p"]:
+                    why = "computed in place: %s" % sorted(labs)[0]
+                # follow the single definition of the temporary back to a field read
+                cur = pl
+                for _ in range(4):
+                    if cur["p"]:
+                        break
+                    d = None
+                    for bb in g.normal_blocks():
+                        for st in g.stmts(bb):
+                            if st[0] == "assign" and st[1]["l"] == cur["l"] and not st[1]["p"] and isinstance(st[2], list) and st[2] and st[2][0] == "use":
+                                d = op_place(st[2][1])
+                    if d is None:
+                        break
+                    cur = d
+                for e in cur["p"]:
+                    if e[0] == "field" and len(e) >= 5 and (e[4], e[2]) in computed:
+                        why = "it reads the field %s.%s, which is filled from %s" % (short(e[4]), e[2], computed[(e[4], e[2])])
+                if why:
+                    rep.bad("R1.5", "orient-arg:%s" % short(g.path), "argument %d of an orientation test in %s is not a stored coordinate: %s - the exact sign for a rounded point is not the sign for the true one" % (k_, short(g.path), why), where=g.loc())
+                    break
+    if n_sites < 1:
+        rep.bad("R1.5", "orient-arg:floor", "no orientation test found in the relate module")
+    else:
+        rep.ok("R1.5", "orient-args[%d call sites, %d computed fields known]" % (n_sites, len(computed)))
 
 
 # (function regex, label-origin regex) -> why a dependence on rounded arithmetic is harmless there
